@@ -129,6 +129,9 @@ def cases(tier, seed):
     for c in _cases(tier, seed):
         c['ul'] = 1 if tier == 'quick' else 2
         cs = [c]
+        if tier == 'quick' and c['offk'] < 0 and c['lay'] == 'C' and (c['mode'] == 'roll' or (c['mode'] == 'single' and c['sweep'].startswith('axis'))):
+            # load balance between the two worker pools: in the quick tier these sweeps run ONLY in the bounds-checking pool
+            c['env'] = 'bchk'
         # the reduced sweeps are repeated in a bounds-checking process
         if c['sweep'] in ('red', 'mini') and c['mode'] in ('single', 'pair', 'multi') and (tier != 'quick' or c['offk'] in (2, -3) or c['e'] != 'tp'):
             b = dict(c)
@@ -195,6 +198,8 @@ def _cases(tier, seed):
                 blist = [bxs[(si - offk + (pdt == 'f8') + rot) % 3]] if Q else bxs
                 for box in blist:
                     for a in range(3):
+                        if Q and offk == -1 and a != (si % 3):
+                            continue        # quick: -1/4 cell never reaches coordinate -1/2; one axis only (all three in thorough)
                         yield _case(e='tp', shape=shape, pdt=pdt, box=box, offk=offk, sweep=f'axis{a}m' if Q else f'axis{a}', acc=(a == 1))
                     if not Q and shape[0] * shape[1] * shape[2] <= 27 and box == bxs[(si - offk) % 3]:
                         yield _case(e='tp', shape=shape, pdt=pdt, box=box, offk=offk, sweep='cube')
@@ -214,7 +219,7 @@ def _cases(tier, seed):
                         continue
                     yield _case(shape=shape, pdt=pdt, box=bxs[(k - offk) % 3], offk=offk, mode='multi', sweep='red', wk='mix',
                                 nth=nth, npart=npart, sort=(k % 2 == 1), acc=(k % 2 == 0))
-                if cube:
+                if cube and not (Q and offk == -2):
                     gi = CUBES.index(shape[0])
                     for wk in ('none', '2.5'):
                         k = gi - offk + (wk != 'none')
@@ -308,7 +313,7 @@ def _cases(tier, seed):
         for pdt in ('f4', 'f8'):
             for offk in (0, 1, 2):
                 for wrap in (True, False):
-                    if Q and wrap != ((si + offk) % 2 == 0):
+                    if Q and (wrap != ((si + offk) % 2 == 0) or offk == (si + 1) % 3):
                         continue
                     for bi, box in enumerate(bxs):
                         if bi != (si + offk + wrap + rot) % 3 and (Q or bi != 0):
